@@ -210,6 +210,19 @@ func Build(level int) []Entry {
 		for _, st := range []int{0, 1, 2, 4, 8, 0x20, 0x40} {
 			ci := &tds.CurInfoPackage{CursorID: int32(n), Name: str(n), Command: tds.CursorCommand(1 + n%5), Status: tds.CursorIStatus(st), RowNum: 11, TotalRows: 222, RowCount: 3333}
 			addLib(fmt.Sprintf("curinfo%d-st%x", n, st), ci, nil)
+			// the wide variant is only reachable through the token
+			if wp, err := tds.LookupPackage(tds.TDS_CURINFO3); err == nil {
+				if w, ok := wp.(*tds.CurInfoPackage); ok {
+					w.CursorID, w.Name, w.Command, w.Status, w.RowNum, w.TotalRows, w.RowCount = int32(n), str(n), tds.CursorCommand(1+n%5), tds.CursorIStatus(st), 11, 222, 3333
+					addLib(fmt.Sprintf("curinfo3-%d-st%x", n, st), w, nil)
+				}
+			}
+			if wp, err := tds.LookupPackage(tds.TDS_CURDECLARE); err == nil {
+				if w, ok := wp.(*tds.CurDeclarePackage); ok {
+					w.Name, w.Stmt, w.Status, w.Options = str(n%256), str(n*2), tds.CursorDStatus(st%4), tds.CursorOption(st%8)
+					addLib(fmt.Sprintf("curdeclare-narrow%d-st%x", n, st), w, nil)
+				}
+			}
 		}
 	}
 	addLib("logout", &tds.LogoutPackage{}, nil)
